@@ -1034,6 +1034,33 @@ class Facts:
             if cands and cands[0][0] >= 0.5 and (len(cands) == 1 or cands[0][0] > cands[1][0]):
                 alias[m[cands[0][1]][0].path] = a
                 taken.add(cands[0][1])
+        # third pass: the function kept its own name but its parameter list was reworked (parameters reordered, a field
+        # passed instead of `self`, a method turned into a free function): same last path segment, same return type and
+        # mostly the same callers
+        for a in sorted(missing):
+            if a in alias.values():
+                continue
+            info = anchors[a]
+            own = a.rsplit("::", 1)[-1]
+            cands = []
+            for e in extra:
+                if e in taken:
+                    continue
+                b = m[e][0]
+                if b.kind not in ("Fn", "AssocFn") or info["kind"] not in ("Fn", "AssocFn") or e.rsplit("::", 1)[-1] != own:
+                    continue
+                if not info["sig"] or b.lty(0) != info["sig"][0]:
+                    continue
+                cs = cg_callers.get(e, set())
+                # a recursive function calls itself under its new name
+                cs = {a if x == e else x for x in cs}
+                want = set(info["callers"])
+                j = len(cs & want) / float(len(cs | want) or 1)
+                cands.append((j, e))
+            cands.sort(reverse=True)
+            if cands and cands[0][0] >= 0.5 and (len(cands) == 1 or cands[0][0] > cands[1][0]):
+                alias[m[cands[0][1]][0].path] = a
+                taken.add(cands[0][1])
         return alias
 
     def fn(self, name):
@@ -1122,6 +1149,10 @@ class Facts:
             loff, boff = len(locals_), len(blocks)
             locals_.extend(cd["locals"])
             for e in cd["dbg"]:
+                # the helper's parameters are plain copies of the caller's arguments: they carry no name in the view, so
+                # that renderings show the argument expression itself (`self.owner_value`, not `value`)
+                if not e["p"]["p"] and 1 <= e["p"]["l"] <= cb.argc:
+                    continue
                 e2 = copy.deepcopy(e)
                 _remap(e2["p"], loff, 0)
                 dbg.append(e2)
